@@ -15,7 +15,7 @@ from mypy.nodes import (
     UnaryExpr,
 )
 
-from refurb.checks.common import is_equivalent, stringify
+from refurb.checks.common import is_equivalent, stringify, stringify_operand
 from refurb.error import Error
 from refurb.settings import Settings
 from refurb.visitor.traverser import TraverserVisitor
@@ -157,7 +157,7 @@ def check(node: ConditionalExpr | IfStmt, errors: list[Error], settings: Setting
                 and does_expr_match_slice_amount(func_name, func_arg, slice_expr)
             ):
                 parts = [
-                    f"{stringify(slice_lhs)} = {stringify(slice_lhs)}.",
+                    f"{stringify(slice_lhs)} = {stringify_operand(slice_lhs, '.')}.",
                     STR_FUNC_TO_REMOVE_FUNC[func_name],
                     f"({stringify(func_arg)})",
                 ]
@@ -187,7 +187,7 @@ def check(node: ConditionalExpr | IfStmt, errors: list[Error], settings: Setting
                 and does_expr_match_slice_amount(func_name, func_arg, slice_expr)
             ):
                 parts = [
-                    f"{stringify(slice_lhs)}.",
+                    f"{stringify_operand(slice_lhs, '.')}.",
                     STR_FUNC_TO_REMOVE_FUNC[func_name],
                     f"({stringify(func_arg)})",
                 ]
